@@ -484,6 +484,10 @@ func (option *Option) call(value *string) error {
 
 	if value == nil {
 		retval = option.value.Call(nil)
+	} else if option.value.Type().NumIn() == 0 {
+		// A callback without parameters is a flag: it cannot be given a
+		// value (from an ini file or the environment)
+		return newErrorf(ErrNoArgumentForBool, "bool flag `%s' cannot have an argument", option)
 	} else {
 		tp := option.value.Type().In(0)
 
